@@ -33,6 +33,10 @@ OPEN = [
     ('C42', 'play:multivoice-frequency-below-110Hz-played-as-110Hz',
      'with Tandy/PCjr multi-voice sound every tone below 110 Hz is played at 110 Hz (hardware limit emulated on purpose). '
      + NOT_REPAIRED),
+    ('C39', 'randomize:reseed-keeps-low-byte-of-previous-seed',
+     'RANDOMIZE n keeps the low byte of the previous seed, so the sequence after RANDOMIZE with the same argument depends on '
+     'how many numbers were drawn before (CLEAR:RANDOMIZE 1:PRINT RND gives .4098261, CLEAR:X=RND:RANDOMIZE 1:PRINT RND '
+     'gives .6832075). ' + NOT_REPAIRED + '(tests/basic/unsorted/RANDOMIZ records this GW-BASIC behaviour)'),
     ('C13', 'renum:line-entered-as-0-lists-with-extra-blank',
      'a line entered as line number 0 keeps the blank after the number; after RENUM it lists with two blanks. ' + NOT_REPAIRED),
     ('C15', 'load:disk-or-bound:B:eof-byte-of-the-file-kept-in-program-memory',
